@@ -29,7 +29,8 @@ func init() {
 		Rule: "case = one full-application history (as C10/C11: emission + distribution incl. burn, vesting pools/accounts/traces, signature data, governance updates) exported at 1-2 random heights (also right after a burn and right after a period hand-over when they occur). At each export: " +
 			"(a) the four custom sections of the exported genesis pass their own GenesisState.Validate(); (b) InitChain of a fresh application (InitialHeight = exported height) does not panic; (c) a second fresh application initialised from the export and committed re-exports the same cfevesting/cfeminter/cfedistributor/cfesignature/auth/bank sections (canonical JSON); " +
 			"(d) the four custom KV stores of the restored application hold the same keys and values as the original (values compared after decoding where 'absent' and 'empty' sub-messages are the same value); (e) original and restored application receive the same 10-25 further blocks and transactions and must agree per block on minted amount, every balance, every transaction result code, the custom query answers and on not panicking. " +
-			"Non-trivial: export taken with >=3 of the 4 custom stores non-empty and a burn state present. Distinct by history hash.",
+			"Non-trivial: export taken with >=3 of the 4 custom stores non-empty and a burn state present. Distinct by history hash." +
+			" In the block before an export somebody tries to pay a module account of the custom modules by a plain transfer.",
 		Assumptions:   []string{"application hashes are not compared (IAVL version history legitimately differs after a restart)"},
 		Cases:         func(t string) int { return tierN(t, 160, 2500) },
 		MinNontrivial: func(t string) int { return tierN(t, 32, 500) },
